@@ -142,8 +142,17 @@ func (fr *Frame) appendOp(st *State, s, t *Term, elem types.Type, tIsString bool
 		base := Ite(fits, oldContent, ex.shiftCopy(oldContent, SOff(s), SLen(s), es))
 		content = base
 		tc := Select(heap, SArr(t))
+		var elems []*Term
 		for i := int64(0); i < lit.Int64(); i++ {
-			content = ex.slUpd(content, off, Add(SLen(s), IntLit(i)), ex.slAt(tc, SOff(t), IntLit(i)))
+			e := ex.slAt(tc, SOff(t), IntLit(i))
+			elems = append(elems, e)
+			content = ex.slUpd(content, off, Add(SLen(s), IntLit(i)), e)
+		}
+		// ground read-backs of the appended elements: they put the terms
+		// sl_at(content', off, len+i) into the solver's term bank, which is what an
+		// existential "the element is now in the slice" needs as witness
+		for i, e := range elems {
+			ex.assume(st, Eq(ex.slAt(content, off, Add(SLen(s), IntLit(int64(i)))), e))
 		}
 	} else {
 		// general case: fresh content constrained pointwise
